@@ -18,9 +18,12 @@ def checks():
     return [c["property_id"] for c in json.load(open(f"{VERIF}/MANIFEST.json"))["checks"]]
 
 
-def run_check(pid, runs=None):
+def run_check(pid, runs=None, seed=None):
     extra = f" --runs {runs}" if runs else ""
-    r = sh(f"cd {VERIF} && ./check {pid} --tier quick --no-evidence{extra}")
+    env = f"VERIF_SEED={seed} " if seed is not None else ""
+    if seed is not None:
+        extra += " --no-shrink"
+    r = sh(f"cd {VERIF} && {env}./check {pid} --tier quick --no-evidence{extra}")
     sigs = [l.split("signature=")[1].strip() for l in r.stdout.splitlines() if l.startswith("violation:") and "signature=" in l]
     idx = [int(l.split("run_index=")[1].split()[0]) for l in r.stdout.splitlines() if l.startswith("violation:") and "run_index=" in l]
     run_check.first = min(idx) if idx else None
@@ -47,6 +50,33 @@ def main():
     if os.path.exists(res_path):
         results = json.load(open(res_path))
     all_ids = checks()
+    seeds = [a.split("=")[1].split(",") for a in sys.argv[1:] if a.startswith("--seeds=")]
+    if seeds:
+        # robustness sweep: is each change also caught under other VERIF_SEED values?  (A change
+        # caught by one run in hundreds of thousands is caught by luck and can be lost again.)
+        rob_path = f"{VERIF}/mutants/robustness.json"
+        rob = json.load(open(rob_path)) if os.path.exists(rob_path) else {}
+        for mid, patch, desc, expected in items:
+            if (only and mid not in only) or not os.path.exists(patch):
+                continue
+            if sh(f"git -C {REPO} apply {patch}").returncode != 0:
+                print(mid, "PATCH DOES NOT APPLY"); continue
+            try:
+                entry = rob.get(mid, {})
+                for seed in seeds[0]:
+                    got = {}
+                    for pid in [e for e in expected if e in all_ids]:
+                        code, sigs = run_check(pid, seed=seed)
+                        got[pid] = {"exit": code, "first": run_check.first, "signatures": len(sigs)}
+                    entry[seed] = got
+                rob[mid] = entry
+                bad = [(sd, pid) for sd, g in entry.items() for pid, v in g.items() if v["exit"] != 1]
+                print(mid, "robust" if not bad else f"NOT CAUGHT under {bad}")
+            finally:
+                sh(f"git -C {REPO} checkout -- .")
+            json.dump(rob, open(rob_path, "w"), indent=1, sort_keys=True)
+        sh(f"find {VERIF}/replays -name '*.json' -delete")
+        return
     for mid, patch, desc, expected in items:
         if only and mid not in only:
             continue
